@@ -1001,7 +1001,8 @@ def t_opvalues( ctx ):
     datas = [ a for a in ast.walk( fn ) if isinstance( a, ast.Assign ) and any( isinstance( t, ast.Subscript ) and try_fold( t.slice ) == 'data' for t in a.targets ) and LST and LST in names_in( a.value ) ]
     if len( datas ) == 1:
         vals = [ ' padded ', '12', 'x y' ]
-        CAST = next(( n for n in names_in( datas[0].value ) if n not in ( LST, 'list', 'map', 'tuple' )), 'cast' )
+        bound = { t_.id for g_ in ast.walk( datas[0].value ) if isinstance( g_, ast.comprehension ) for t_ in ast.walk( g_.target ) if isinstance( t_, ast.Name ) }
+        CAST = next(( n for n in sorted( names_in( datas[0].value )) if n not in ( LST, 'list', 'map', 'tuple' ) and n not in bound ), 'cast' )
         try:
             got = fold( datas[0].value, { LST: list( vals ), CAST: ( lambda v: ( 'cast', v )) } )
         except NoFold as exc:
@@ -1340,6 +1341,19 @@ def t_methods( ctx ):
     for name in _METHOD_BUILDER:
         if name not in seen:
             res.bad( src, chain, 'method %r has no branch' % name, 'operations of this kind are refused', func='connector.issue' )
+    # (d) sibling agreement: every builder `issue` calls with **op accepts the same size-estimation hints an operation may carry
+    # ( parse_operations( ..., data_size= ) puts them on reads AND writes ): a hint one builder does not name travels on in **kwds to req_send
+    # and raises TypeError - for a lone request only, the bundled one ( send=False ) never gets there
+    HINTS = ( 'data_size', 'elements', 'tag_type' )
+    for qn in sorted( list( _BUILDER_CONTEXT ) + [ 'client.service_code' ] ):
+        b = src.get( qn )
+        params = { a.arg for a in b.args.args + b.args.kwonlyargs }
+        lacking = [ h for h in HINTS if h not in params ]
+        if lacking:
+            res.bad( src, b, '%s does not accept the hint %s its siblings accept' % ( qn, ', '.join( lacking )),
+                     'an operation carrying it works when bundled ( the request is only built ) and raises TypeError ( unconnected_send() got an unexpected keyword ) when issued alone or pipelined: results depend on bundling', func=qn )
+        else:
+            res.ok( src, b, '%s accepts the estimation hints data_size, elements, tag_type' % qn )
     # (b), (c) the builders
     for qn, ctxs in sorted( _BUILDER_CONTEXT.items()):
         b = src.get( qn )
